@@ -23,6 +23,7 @@ type c15PJScen struct {
 	SendJoin   string `json:"send_join"`  // ok | err
 	Remote     string `json:"remote"`     // none | good | garbage | leave | other_room | other_state_key | topic
 	Auth       string `json:"auth"`       // good | no_create | create_unknown_version | create_bad_content | create_state_key | create_no_version | empty | unparsable_create | decoy_then_good | unknown_then_good
+	OddTemplate bool  `json:"odd_template"` // make_join template of another type / room / user / membership
 	StateFault string `json:"state_fault"` // none | bad_sig | unauthorised_event | invite_only | missing_auth_event
 }
 
@@ -175,6 +176,13 @@ func c15PerformJoin(args [][]byte) ([][]byte, []byte) {
 	tmplKey := user
 	mk := &c15MakeJoinResp{ver: gmsl.RoomVersion(s.RespVer), proto: gmsl.ProtoEvent{SenderID: user, RoomID: c15ReqRoom, Type: spec.MRoomMember,
 		StateKey: &tmplKey, PrevEvents: prev, AuthEvents: authEvents, Depth: int64(len(room.state) + 1), Content: spec.RawJSON(`{"membership":"join"}`)}}
+	if s.OddTemplate {
+		// a template that is not a join of the user in this room: PerformJoin must put that right
+		other := "@someoneelse:remote"
+		mk.proto.Type, mk.proto.RoomID, mk.proto.SenderID, mk.proto.StateKey = "m.room.topic", c15OtherRoom, other, &other
+		mk.proto.Redacts = "$something"
+		mk.proto.Content = spec.RawJSON(`{"membership":"leave","displayname":"kept"}`)
+	}
 
 	// send_join answer
 	authList := []gmsl.PDU{create, cmember, pl, jr}
@@ -282,6 +290,7 @@ func c15PerformJoin(args [][]byte) ([][]byte, []byte) {
 	_, verErr := gmsl.GetRoomVersion(effVer)
 	cfg := c15Obj{"user_nil": s.UserNil, "room_nil": s.RoomNil, "keyring_nil": s.KeyRingNil, "make_join_ok": s.MakeJoin != "err",
 		"resp_version": s.RespVer, "auth_first_is_string": s.AuthShape == "strings", "room": c15ReqRoom, "user": user,
+		"origin": "local", "server": "remote",
 		"sender_id": c15Val(user), "mapping_sign_ok": true, "send_join_ok": s.SendJoin != "err", "store_ok": true}
 	// Build succeeds? ask the same builder
 	buildOK := false
@@ -365,7 +374,7 @@ func c15PerformJoin(args [][]byte) ([][]byte, []byte) {
 			out += " NOT-A-JOIN-OF-THE-USER"
 		}
 	}
-	return [][]byte{args[0], c15JSON(cfg)}, []byte(out)
+	return [][]byte{args[0], c15JSON(cfg)}, []byte(out + "\n" + log.String())
 }
 
 func c15Bit(b bool) string {
@@ -400,6 +409,7 @@ func genC15Perform(c *Ctx) {
 		{"version absent, no auth events", func(s *c15PJScen) { s.RespVer = ""; s.RoomVer = "1"; s.AuthShape = "nil" }},
 		{"claimed version differs from the room's", func(s *c15PJScen) { s.RespVer = "9" }},
 		{"send_join fails", func(s *c15PJScen) { s.SendJoin = "err" }},
+		{"odd template", func(s *c15PJScen) { s.OddTemplate = true }},
 		{"no remote event", func(s *c15PJScen) { s.Remote = "none" }},
 		{"remote event garbage", func(s *c15PJScen) { s.Remote = "garbage" }},
 		{"remote event a leave", func(s *c15PJScen) { s.Remote = "leave" }},
